@@ -362,7 +362,7 @@ structure LRU.AddSpec (l : LRU) (k v : Nat) (l' : LRU) (i : Nat) (added : Bool) 
     ∃ r r' : RC, l.rcs[i]? = some r ∧ l'.rcs[i]? = some r' ∧ r.key = k ∧ r.alive ∧ r'.alive ∧
       r'.val = r.val ∧ r'.key = r.key ∧ find k l'.order = some i
   fresh : added = true → find k l.order = none ∧ i = l.rcs.length ∧ l'.rcs.length = l.rcs.length + 1 ∧
-    ∃ r' : RC, l'.rcs[i]? = some r' ∧ r'.key = k ∧ r'.val = v ∧ r'.alive
+    (∃ r' : RC, l'.rcs[i]? = some r' ∧ r'.key = k ∧ r'.val = v ∧ r'.alive) ∧ find k l'.order = some i
 
 theorem LRU.add_spec {l l' : LRU} {h h' : Nat → Nat} {k v i : Nat} {added : Bool} {fired : Option Nat}
     (hi : l.Inv h) (ha : l.add k v = (l', i, added, fired))
@@ -417,7 +417,8 @@ theorem LRU.add_spec {l l' : LRU} {h h' : Nat → Nat} {k v i : Nat} {added : Bo
           · simp; omega
           · exact hnd0.2.2 x.2 (List.mem_map.mpr ⟨x, hx, rfl⟩) e.2 (by simp)
         obtain ⟨f1, f2, f3, f4, f5⟩ := LRU.finalize_spec (i := e.2) hi2 hout
-        refine ⟨f1, ⟨LRU.Eff.trans LRU.Eff.push f2 ?_, fun hc => by simp at hc, fun _ => ⟨hfind, rfl, ?_, ?_⟩⟩⟩
+        refine ⟨f1, ⟨LRU.Eff.trans LRU.Eff.push f2 ?_, fun hc => by simp at hc,
+          fun _ => ⟨hfind, rfl, ?_, ?_, by rw [f4]; simp [find]⟩⟩⟩
         · intro j r2 r3 hj h2 h3 ha
           have hjlt := lt_of_get_some h2
           simp only [List.length_append, List.length_singleton] at hjlt
@@ -431,13 +432,13 @@ theorem LRU.add_spec {l l' : LRU} {h h' : Nat → Nat} {k v i : Nat} {added : Bo
       · simp only [Prod.mk.injEq] at ha
         obtain ⟨rfl, rfl, rfl, rfl⟩ := ha
         refine ⟨hi.push (by rw [hh1, hb]) hh2 (fun _ h => h) ?_, ⟨LRU.Eff.push, fun hc => by simp at hc,
-          fun _ => ⟨hfind, rfl, by simp, _, append_get_new, rfl, rfl, hnew⟩⟩⟩
+          fun _ => ⟨hfind, rfl, by simp, ⟨_, append_get_new, rfl, rfl, hnew⟩, by simp [find]⟩⟩⟩
         simp only [List.map_cons, List.nodup_cons]
         exact ⟨hi.fresh_not_mem (fun _ h => h), hi.nodup⟩
     · simp only [Prod.mk.injEq] at ha
       obtain ⟨rfl, rfl, rfl, rfl⟩ := ha
       refine ⟨hi.push (by rw [hh1, hb]) hh2 (fun _ h => h) ?_, ⟨LRU.Eff.push, fun hc => by simp at hc,
-        fun _ => ⟨hfind, rfl, by simp, _, append_get_new, rfl, rfl, hnew⟩⟩⟩
+        fun _ => ⟨hfind, rfl, by simp, ⟨_, append_get_new, rfl, rfl, hnew⟩, by simp [find]⟩⟩⟩
       simp only [List.map_cons, List.nodup_cons]
       exact ⟨hi.fresh_not_mem (fun _ h => h), hi.nodup⟩
 
